@@ -60,8 +60,8 @@ def corrupt(rng, s, alphabet):
 
 def units(tier):
     rng = random.Random(seed())
-    specs, _ = small_specs(tier, rng, allow_cyclic=False, nrand_quick=60, nrand_thorough=800,
-                           chains_quick=20, chains_thorough=200, fixed_quick=100, fixed_thorough=1500)
+    specs, _ = small_specs(tier, rng, allow_cyclic=False, nrand_quick=60, nrand_thorough=4000,
+                           chains_quick=20, chains_thorough=300, fixed_quick=100, fixed_thorough=4000)
     return [{"specs": [s.to_json() for s in ch], "seed": seed() * 1000 + i, "maxtok": 3 if tier == "quick" else 4}
             for i, ch in enumerate(chunks(specs, 40))]
 
@@ -329,7 +329,7 @@ def run_unit(u):
                 with budget(2):
                     f = gp.parse(text)
                     errs = list(gp.errors)
-                    n = len(f)
+                    n = f.solutions      # len() cannot exceed sys.maxsize in CPython
                     trees = [f[i] for i in range(min(n, 4))]
                 st["glr_runs"] += 1
                 res["evaluations"] += 1
@@ -337,9 +337,9 @@ def run_unit(u):
                 try:
                     with budget(2):
                         f0 = gplain.parse(text)
-                    if errs or len(f0) != n:
+                    if errs or f0.solutions != n:
                         res["violations"].append({"kind": "recovery-changes-the-parse-of-a-sentence", "case": case,
-                                                  "observed": [len(errs), n], "expected": len(f0)})
+                                                  "observed": [len(errs), str(n)], "expected": str(f0.solutions)})
                 except Exception:
                     pass
             except parglare.SyntaxError:
